@@ -57,7 +57,7 @@ mod kani_c03 {
         echo.emit(&mut Icmpv4Packet::new_unchecked(&mut ping[20..]), &ChecksumCapabilities::default());
         let mut frag2 = FragmentsBuffer::kani_new();
         let reply = cx.process_ip(&mut sockets, PacketMeta::default(), &ping[..], &mut frag2);
-        assert!(matches!(reply, Some(Packet::Ipv4(ref p)) if matches!(p.payload, IpPayload::Icmpv4(Icmpv4Repr::EchoReply { ident: 1, seq_no: 2, .. }))), "C03.alive: after any frame the interface still answers an echo request");
+        assert!(matches!(reply, Some(ref p) if matches!(p.payload(), IpPayload::Icmpv4(Icmpv4Repr::EchoReply { ident: 1, seq_no: 2, .. }))), "C03.alive: after any frame the interface still answers an echo request");
     }
 
     /// raw-IP medium, IPv6: arbitrary bytes (version nibble 6), one bound UDP socket
